@@ -83,7 +83,8 @@ PROPS = {
                    'interpolation, bit reversal and transposes are covered by a bounded stand-in only (roots-of-unity developments are days of proof '
                    'engineering; see DESIGN.md).',
         level_note='Trusted: Verus+Z3; usize::trailing_zeros std semantics. Everything except log2_strict is BOUNDED evidence (sizes 1..256, random and boundary '
-                   'operands, naive DFT / schoolbook oracles), never counted as proof; it found F6 (div_rem) and F7 (inv_mod_xn), both fixed.',
+                   'operands, naive DFT / schoolbook oracles; coset vanishing polynomial, first Lagrange polynomial, disjoint coset shifts, value-form LDE helpers), never '
+                   'counted as proof; it found F6 (div_rem) and F7 (inv_mod_xn), both fixed.',
         remainder=['fft / ifft / coset variants / lde', 'polynomial mul / div_rem / divide_by_linear / interpolate', 'reverse_index_bits*, transpose_* (unsafe code)'],
     ),
     'C12': dict(
